@@ -434,3 +434,162 @@ func AllocsOf(fn *ssa.Function, named *types.Named) []*ssa.Alloc {
 	})
 	return out
 }
+
+// FlowSink is a place a value flows into (forward slice).
+type FlowSink struct {
+	Callee *types.Func // call argument sink
+	Arg    int
+	Field  *types.Var // field store sink
+	Cmp    *ssa.BinOp // comparison sink
+	Ret    int        // return index (when IsRet)
+	IsRet  bool
+	Instr  ssa.Instruction
+}
+
+// ForwardSinks follows a value forward through conversions, calls (the result
+// of a call is assumed to derive from its arguments), phis, local cells and
+// extracts, and reports the calls, field stores, comparisons and returns it reaches.
+func ForwardSinks(v ssa.Value, maxDepth int) []FlowSink {
+	var out []FlowSink
+	seen := map[ssa.Value]bool{}
+	var walk func(v ssa.Value, d int)
+	walk = func(v ssa.Value, d int) {
+		if v == nil || seen[v] || d > maxDepth {
+			return
+		}
+		seen[v] = true
+		refs := v.Referrers()
+		if refs == nil {
+			return
+		}
+		for _, r := range *refs {
+			switch u := r.(type) {
+			case *ssa.Call:
+				cc := u.Common()
+				callee := CommonCallee(cc)
+				for i, a := range cc.Args {
+					if a == v {
+						out = append(out, FlowSink{Callee: callee, Arg: i, Instr: u})
+					}
+				}
+				if _, isB := cc.Value.(*ssa.Builtin); isB || callee != nil {
+					walk(u, d+1)
+				}
+			case *ssa.Convert:
+				walk(u, d+1)
+			case *ssa.ChangeType:
+				walk(u, d+1)
+			case *ssa.MakeInterface:
+				walk(u, d+1)
+			case *ssa.Phi:
+				walk(u, d+1)
+			case *ssa.Extract:
+				walk(u, d+1)
+			case *ssa.Slice:
+				walk(u, d+1)
+			case *ssa.BinOp:
+				switch u.Op {
+				case token.EQL, token.NEQ, token.LSS, token.LEQ, token.GTR, token.GEQ:
+					out = append(out, FlowSink{Cmp: u, Instr: u})
+				}
+				walk(u, d+1)
+			case *ssa.UnOp:
+				walk(u, d+1)
+			case *ssa.Store:
+				if u.Val != v {
+					continue
+				}
+				switch a := u.Addr.(type) {
+				case *ssa.FieldAddr:
+					out = append(out, FlowSink{Field: FieldOfAddr(a), Instr: u})
+				case *ssa.Alloc:
+					for _, rr := range *a.Referrers() {
+						if ld, ok := rr.(*ssa.UnOp); ok && ld.Op == token.MUL {
+							walk(ld, d+1)
+						}
+					}
+				case *ssa.IndexAddr:
+					if al, ok := a.X.(*ssa.Alloc); ok { // varargs array
+						for _, rr := range *al.Referrers() {
+							if sl, ok := rr.(*ssa.Slice); ok {
+								walk(sl, d+1)
+							}
+						}
+					}
+				}
+			case *ssa.Return:
+				for i, rv := range u.Results {
+					if rv == v {
+						out = append(out, FlowSink{IsRet: true, Ret: i, Instr: u})
+					}
+				}
+			}
+		}
+	}
+	walk(v, 0)
+	return out
+}
+
+// OriginParam resolves a value to the function parameter it is a copy of,
+// looking through conversions, spilled parameter cells (`t = new T (p); *t = p`)
+// and captured variables of enclosing functions.  nil if it is not one.
+func OriginParam(v ssa.Value) *ssa.Parameter {
+	v = SkipConv(v)
+	switch x := v.(type) {
+	case *ssa.Parameter:
+		return x
+	case *ssa.UnOp:
+		if x.Op != token.MUL {
+			return nil
+		}
+		switch a := x.X.(type) {
+		case *ssa.Alloc:
+			return cellParam(a)
+		case *ssa.FreeVar:
+			fn := a.Parent()
+			parent := fn.Parent()
+			if parent == nil {
+				return nil
+			}
+			idx := -1
+			for i, fv := range fn.FreeVars {
+				if fv == a {
+					idx = i
+				}
+			}
+			var res *ssa.Parameter
+			Instrs(parent, func(in ssa.Instruction) {
+				mc, ok := in.(*ssa.MakeClosure)
+				if !ok || mc.Fn != ssa.Value(fn) || idx >= len(mc.Bindings) {
+					return
+				}
+				switch b := mc.Bindings[idx].(type) {
+				case *ssa.Alloc:
+					res = cellParam(b)
+				case *ssa.FreeVar:
+					// captured from a grandparent: resolve one more level through a synthetic load
+					res = OriginParam(&ssa.UnOp{Op: token.MUL, X: b})
+				}
+			})
+			return res
+		}
+	}
+	return nil
+}
+
+func cellParam(a *ssa.Alloc) *ssa.Parameter {
+	var prm *ssa.Parameter
+	n := 0
+	for _, r := range *a.Referrers() {
+		if st, ok := r.(*ssa.Store); ok && st.Addr == ssa.Value(a) {
+			n++
+			if p, ok := st.Val.(*ssa.Parameter); ok {
+				prm = p
+			}
+		}
+	}
+	if n == 1 {
+		return prm
+	}
+	return nil
+}
